@@ -113,6 +113,7 @@ func TestVerifHistory(t *testing.T) {
 		Sessions [][]verifOp `json:"sessions"`
 		Random   int         `json:"random"`
 		MaxLen   int         `json:"maxlen"`
+		Long     []int       `json:"long"`
 	}
 	verifkit.In(&in)
 	out := verifkit.Out()
@@ -129,6 +130,31 @@ func TestVerifHistory(t *testing.T) {
 		ops := make([]verifOp, n)
 		for j := range ops {
 			ops[j].Op = names[rng.Intn(len(names))]
+		}
+		sid++
+		verifSession(out, sid, ops)
+	}
+	/* long histories: n pages opened one after another, walked back to the first and forward to the last,
+	   then a page opened from the middle; and histories that mostly grow */
+	for _, n := range in.Long {
+		ops := []verifOp{}
+		rep := func(op string, k int) {
+			for i := 0; i < k; i++ {
+				ops = append(ops, verifOp{Op: op})
+			}
+		}
+		rep("add", n)
+		rep("back", n)
+		rep("forward", n)
+		rep("back", n/2)
+		rep("add", 1)
+		rep("forward", 2)
+		rep("back", n)
+		sid++
+		verifSession(out, sid, ops)
+		ops = make([]verifOp, 2*n)
+		for j := range ops {
+			ops[j].Op = []string{"add", "add", "add", "add", "add", "add", "add", "back", "forward", "back"}[rng.Intn(10)]
 		}
 		sid++
 		verifSession(out, sid, ops)
